@@ -398,6 +398,9 @@ fn main() {
     cov.insert("rule".into(), json!(format!(
         "record header: all 256 types, all 65536 epochs, versions and declared lengths (10 cut points each), every byte of the 48-bit sequence number x all 256 values, all single- and double-bit patterns of the 64-bit epoch+sequence word, every prefix of boundary-length records; handshake header: (length, offset, fragment length) over a 7^3 boundary cube for 4 sizes x 7 types, all 256 types, all 65536 message_seq, fragment offsets ({}); {} catalogue handshake messages and {} records x every combination of <= {} deviations; all 256 cookie lengths; all strings of bounded length over a positional alphabet. datagrams of 2-3 records over 4 epochs x 5 record kinds against the explicit single-record loop; Oracles: reference 13-byte framing (Incomplete iff strict prefix, exact Needed, cap), strict DTLS walkers, is_fragment() predicate. Non-trivial: not cut inside a fixed header",
         if thorough { "all 2^24" } else { "every 251st of 2^24 plus 16-bit boundaries" }, nhs, nrecs, d)));
+    // the same check against the crate built with all cargo features (std, serialize, unstable)
+    let mut sink = sink;
+    run.all_features_variant(&mut sink);
     let code = run.finish(
         &sink,
         cov,
